@@ -66,6 +66,36 @@ impl QosPolicies {
     pub fn is_reliable(&self) -> (r: bool) ensures r == self.reliable() { unimplemented!() }
 }
 
+// ---- structure/duration.rs Duration, dds/qos.rs Deadline: the delay of the next repair step ------
+// (only computed and handed to the timer; Div<i64> = from_ticks(to_ticks() / rhs) panics on rhs == 0)
+#[verifier::external_body] #[derive(Clone, Copy)] pub struct Duration { x: u8 }
+impl Duration {
+    #[verifier::external_body]
+    pub fn from_millis(millis: i64) -> (r: Self) { unimplemented!() }
+}
+impl vstd::std_specs::ops::DivSpecImpl<i64> for Duration {
+    open spec fn obeys_div_spec() -> bool { false }
+    open spec fn div_req(self, rhs: i64) -> bool { rhs != 0 }     // [nopanic.duration.div]
+    uninterp spec fn div_spec(self, rhs: i64) -> Duration;
+}
+impl core::ops::Div<i64> for Duration {
+    type Output = Duration;
+    #[verifier::external_body]
+    fn div(self, rhs: i64) -> (r: Duration) { unimplemented!() }
+}
+impl StdDuration {
+    // impl From<Duration> for std::time::Duration (saturating at zero)
+    #[verifier::external_body]
+    pub fn from(d: Duration) -> (r: StdDuration) { unimplemented!() }
+}
+impl QosPolicies {
+    #[verifier::external_body]
+    pub fn deadline(&self) -> (r: Option<Deadline>) { unimplemented!() }
+}
+pub assume_specification<T, U, D: FnOnce() -> U, F: FnOnce(T) -> U>[ Option::<T>::map_or_else ](o: Option<T>, default: D, f: F) -> (r: U)
+    requires o.is_none() ==> default.requires(()), o.is_some() ==> f.requires((o.unwrap(),)),
+    ensures o.is_none() ==> default.ensures((), r), o.is_some() ==> f.ensures((o.unwrap(),), r);
+
 // ---- back ends of the two ascending iterators (DoubleEndedIterator::next_back) -------------------
 impl<'a> UnsentIter<'a> {
     #[verifier::external_body]
